@@ -135,7 +135,9 @@ def main(argv=None):
         S = 1
     errdir = os.path.join("/tmp", "simkit-{}-{}".format(prop, os.getpid()))
     os.makedirs(errdir, exist_ok=True)
-    wargs = {"engine": spec["engine"], "prop": prop, "tier": a.tier, "seed": S}
+    # per-run watchdog: generous, it only classifies genuine hangs (a loaded machine must not turn into INCOMPLETE)
+    wargs = {"engine": spec["engine"], "prop": prop, "tier": a.tier, "seed": S,
+             "run_timeout": 1500 if a.tier == "thorough" else 700}
     if a.replay:
         return do_replay(a.replay, wargs, errdir)
     return do_check(a, prop, spec, tier, S, wargs, errdir)
